@@ -185,15 +185,11 @@ def feasible_paths(cfg, start, ends, limit=3000, max_visits=1, ignore_exc=True):
 
     def names_of(text, cache={}):
         if text not in cache:
-            s = set()
+            from sa.cfg import maximal_names
             try:
-                for x in ast.walk(ast.parse(text, mode="eval")):
-                    d = dotted(x) if isinstance(x, (ast.Attribute, ast.Name)) else None
-                    if d:
-                        s.add(d)
+                cache[text] = maximal_names(ast.parse(text, mode="eval"))
             except SyntaxError:
-                pass
-            cache[text] = s
+                cache[text] = set()
         return cache[text]
 
     def rec(n, path, facts):
